@@ -42,7 +42,7 @@ def _closure_capture_roots(P, cl_body):
     cr = P.created.get(cl_body.id)
     if not cr:
         return set()
-    parent, bb, j, ops, _, _ = cr
+    parent, bb, j, ops = cr[0], cr[1], cr[2], cr[3]
     out = set()
     for o in ops:
         out |= _roots(P, parent, parent.operand_prov(o))
